@@ -160,7 +160,30 @@ def entry(key, value, st, indent_cont=True):
   return out
 
 
+def bracket_styles(text, st):
+  """exprtk groups with (), [] and {} alike: rewrite some grouping pairs (never the brackets of a function call)."""
+  out = list(text)
+  stack = []
+  for i, ch in enumerate(text):
+    if ch == "(":
+      prev = text[i - 1] if i else " "
+      call = prev.isalnum() or prev in "_."
+      stack.append((i, call))
+    elif ch == ")" and stack:
+      j, call = stack.pop()
+      if not call and st.rng.random() < 0.3:
+        o, c = st.rng.choice(["[]", "{}"])
+        out[j], out[i] = o, c
+  return "".join(out)
+
+
 def formula_layout(text, st):
+  if st.rng.random() < 0.35:
+    text = bracket_styles(text, st)
+  return _formula_layout(text, st)
+
+
+def _formula_layout(text, st):
   """Layouts of one formula that mean the same to the expression parser: continued over several lines (a newline is
   white space), with end-of-line comments ('// ...', '# ...') and inline '/* ... */' comments as exprtk allows."""
   c = st.rng.random()
